@@ -16,6 +16,7 @@ from __future__ import annotations
 import ast
 import re
 
+from ..consteval import FuncTok
 from ..model import AnalysisError, norm, walk_no_nested, call_name
 from ..callgraph import Resolver
 from ..effects import Effects
@@ -134,6 +135,7 @@ def run(ctx):
             ctx.check('R1.4', uses, 'fst_core', fi.qualname, f'{q} enumerates children via {must}',
                       f'{q} must reach all children through the grammar-driven enumeration', fi.lineno)
     check_primitive_puts(ctx)
+    check_joined_words(ctx)
 
 
 def check_bistr(ctx, fi, adopters=None):
@@ -399,3 +401,48 @@ def check_primitive_puts(ctx):
                               sample={'function': fi.key, 'case': what})
     if n5 < 5:
         raise AnalysisError(f'only {n5} primitive stores in put handlers found')
+
+
+# ---- R1.7 ------------------------------------------------------------------------------------------------------------
+
+def check_joined_words(ctx):
+    """`_fix_joined_alnums(ln, col)` separates two words that an edit left touching (`cfor`, `inb`).  Where a put-slice handler believes this
+    can happen at a boundary *outside* the slice (the start of the following sibling / of the parent's next part) it has to believe it for a
+    deletion as much as for an insertion: removing the last elements brings what stood before them up against the same boundary.  A repair
+    that is control dependent on "there is new code" (`if fst_:` / the else of `if not fst_:`) while the delete arm of the same handler
+    splices the same field is the contradiction."""
+    from ..struct import parent_map, enclosing_tests
+    PS = ctx.ev.get('fst_put_slice', '_PUT_SLICE_HANDLERS')
+    ctx.rule('R1.7', 'a joined-words repair in a put-slice handler is not confined to the insert arm when the handler also deletes', 3)
+    seen = set()
+    n = 0
+    for tok in PS.values():
+        if not isinstance(tok, FuncTok) or tok.key in seen:
+            continue
+        seen.add(tok.key)
+        for fi in ctx.repo.mod(tok.module).func(tok.qualname):
+            if isinstance(fi.node, ast.Lambda):
+                continue
+            # the converted-code local: `fst_ = _code_to_slice_*(self, code, ...)`
+            codev = {x.targets[0].id for x in walk_no_nested(fi.node) if isinstance(x, ast.Assign) and len(x.targets) == 1 and
+                     isinstance(x.targets[0], ast.Name) and isinstance(x.value, ast.Call) and (call_name(x.value) or '').startswith('_code_to_slice')}
+            if not codev:
+                continue
+            par = parent_map(fi.node)
+            for c in walk_no_nested(fi.node):
+                if not (isinstance(c, ast.Call) and call_name(c) == '_fix_joined_alnums'):
+                    continue
+                n += 1
+                insert_only = False
+                for t, pol in enclosing_tests(fi.node, c, par):
+                    neg = False
+                    while isinstance(t, ast.UnaryOp) and isinstance(t.op, ast.Not):
+                        t, neg = t.operand, not neg
+                    if isinstance(t, ast.Name) and t.id in codev and (pol != neg):
+                        insert_only = True
+                ctx.check('R1.7', not insert_only, fi.module, fi.qualname, f'{norm(c, 60)} only when code is put',
+                          'the words on both sides of this boundary are separated again only after an insertion; deleting the last elements of the '
+                          'field brings the text before them up against the same boundary and nothing separates them (`... in c if(d)for ...` -> `cfor`)',
+                          c.lineno, sample={'handler': fi.key, 'repair': norm(c, 60)})
+    if n < 2:
+        raise AnalysisError(f'only {n} joined-words repairs found in the put-slice handlers')
